@@ -18,7 +18,9 @@ size variable unset).  That the reference answer is the right one is C01/C02/C04
                      F.derivatives(t, K)[k] = N.derivatives(u, K)[k] / a**k          (chain rule, C_F(t) = C_N((t - b)/a);
                      surfaces: [k][l] scaled by 1 / (a_u**k * a_v**l)),
                      insert_knot(t) on F and insert_knot(u) on N: same control points, knots of F = a * knots of N + b,
-                     the same sample_size (or the same delta) gives the same number of evaluated points and the same points,
+                     the same sample_size (or the same delta) gives the same number of evaluated points and the same points
+                     (CONCRETE a, b here: the sample count is floor(1/delta + 1/2)),
+                     tessellate(): same vertex / face numbering, same vertex coordinates,
       and no call that is valid on the normalised object raises on the other one.
       requires (find_multiplicity, tolerance 1e-7 executed as written in both parametrisations): the inserted knot equals a
       knot or is farther than 1e-7 from it in u AND in t.
@@ -26,8 +28,9 @@ size variable unset).  That the reference answer is the right one is C01/C02/C04
       a fresh interpreter (sys.executable: the tool interpreter in the symbolic run, /venv/bin/python in the native replay)
       with GEOMDL_CACHE_SIZE in {1, 16, 1024} imports geomdl.helpers and geomdl.linalg of the repository under test and prints
       the same results for a fixed concrete history (knot insertion, knot removal, identity matrices, binomial coefficients,
-      LU solve) as with the variable unset.  Concrete data; the functools.lru_cache contract (A4) is what makes the size
-      irrelevant, the check observes it on the real interpreter.
+      LU solve; last a history in which memoised identity matrices are handed out, used by matrix_pivot and requested again)
+      as with the variable unset.  Concrete data; the functools.lru_cache contract (A4) is what makes the size irrelevant,
+      the check observes it on the real interpreter.
 (4) num_procs  (multi.py:676-687; _voxelize.py:35-46; _utilities.py:45-54)
       multi.SurfaceContainer.tessellate(num_procs=N) and voxelize.voxelize(obj, num_procs=N), N in {1, 2, 4} (8 thorough) on
       CONCRETE shapes: same vertices (id, uv, coordinates), same faces (id, vertex ids), same evaluated points of every
@@ -39,6 +42,10 @@ size variable unset).  That the reference answer is the right one is C01/C02/C04
       copies, renumbering, result assembly) runs for real.  The real pools are additionally run in a native interpreter
       (/venv/bin/python subprocess, scenario real_pools) once per N as a sanity run: it shows that the objects pickle and
       that the real Pool.map kept the order on that run, nothing about other interleavings.
+
+Re-found on the pinned tree (DESIGN.md section 11; each replayed natively): GEOMDL_CACHE_SIZE set -> import fails (3);
+normalize_kv=False + sample_size setter -> wrong number of points / ValueError (2); normalize_kv=False + tessellate -> vertices
+evaluated at unit-square parameters (2); SurfaceEvaluator2.derivatives with order > degree_u raises (1, root cause in C02).
 """
 import os
 import subprocess
@@ -46,7 +53,7 @@ import sys
 from fractions import Fraction
 
 from .api import scenario, CheckFailed, Skip, REPO
-from . import shapes, assumptions
+from . import shapes, spec, assumptions
 
 assumptions.PROPS['C17'] = {'level': 'other', 'assume': ['A1', 'A2', 'A4', 'A5', 'A6'],
                             'explanation': 'Engine B only: the same query is run under two configurations of the real code and '
@@ -130,6 +137,9 @@ def _curve_cfg_shapes(tier):
     for p, mult in base:
         for span, alt in (('binsearch', False), ('linear', True), ('binsearch', True)):
             out.append(dict(p=p, mult=mult, rational=False, span=span, alt=alt, clamped=True, samples=3))
+    # three distinct interior knots: the binary search reaches a knot from the left (low = mid) as well as from the right
+    for p, mult in [(1, [1, 1, 1]), (2, [1, 1, 1])] + ([(2, [1, 2, 1]), (3, [1, 1, 1, 1])] if tier == 'thorough' else []):
+        out.append(dict(p=p, mult=mult, rational=False, span='binsearch', alt=False, clamped=True, samples=3))
     rat = [(1, [1]), (2, [1])] + ([(2, [2]), (3, [1])] if tier == 'thorough' else [])
     for p, mult in rat:
         out.append(dict(p=p, mult=mult, rational=True, span='binsearch', alt=False, clamped=True, samples=3))
@@ -159,7 +169,6 @@ def curve_span_evaluator(ctx, p, mult, rational, span, alt, clamped, samples):
     P = shapes.net(ctx, 'P', n, 2)
     W = shapes.weights(ctx, 'w', n) if rational else None
     if rational:
-        from . import spec
         ctx.assume_pos(spec.curve_point(p, U, [[w] for w in W], u)[0], 'L.weight_function_positive')
     ref = _curve(ctx, p, U, P, W, normalize_kv=clamped)
     f = _span(ctx, span)
@@ -230,7 +239,6 @@ def surface_span_evaluator(ctx, pu, pv, mu, mv, rational, span, alt, orders):
     P = shapes.net(ctx, 'P', su * sv, 3)
     W = shapes.weights(ctx, 'w', su * sv) if rational else None
     if rational:
-        from . import spec
         ctx.assume_pos(spec.surface_point(pu, pv, U, V, [[w] for w in W], su, sv, u, v)[0], 'L.weight_function_positive')
     ref = _surface(ctx, pu, pv, U, V, P, su, sv, W)
     f = _span(ctx, span)
@@ -268,7 +276,14 @@ import sys
 sys.path.insert(0, sys.argv[1])
 from geomdl import helpers, linalg
 assert helpers.__file__.startswith(sys.argv[1]), helpers.__file__
-out = []
+n_out = [0]
+
+
+def rec(*o):          # printed at once: a result that is a memoised object must not be read after later calls
+    n_out[0] += 1
+    print(repr(o))
+
+
 # cubic curve, 6 control points
 U = [0.0, 0.0, 0.0, 0.0, 0.25, 0.5, 1.0, 1.0, 1.0, 1.0]
 P = [[0.0, 0.0], [1.0, 2.0], [2.0, -1.0], [4.0, 3.0], [5.0, 0.5], [6.0, 2.0]]
@@ -278,22 +293,24 @@ for rnd in range(3):                      # repeated and interleaved calls: hits
         span = helpers.find_span_linear(3, U, len(P), x)
         Q = helpers.knot_insertion(3, U, P, x, num=r, s=s, span=span)
         UQ = helpers.knot_insertion_kv(U, x, span, r)
-        out.append(('insert', x, r, Q, UQ))
+        rec('insert', x, r, Q, UQ)
         s2 = helpers.find_multiplicity(x, UQ)
         span2 = helpers.find_span_linear(3, UQ, len(Q), x)
         back = helpers.knot_removal(3, UQ, Q, x, num=r, s=s2, span=span2)
-        out.append(('remove', x, r, back, helpers.knot_removal_kv(UQ, span2, r)))
-        out.append(('alpha', helpers.knot_insertion_alpha(x, tuple(U), span, 0, span - 2),
-                    helpers.knot_removal_alpha_i(x, 3, tuple(UQ), 0, span - 2),
-                    helpers.knot_removal_alpha_j(x, 3, tuple(UQ), 0, span)))
+        rec('remove', x, r, back, helpers.knot_removal_kv(UQ, span2, r))
+        rec('alpha', helpers.knot_insertion_alpha(x, tuple(U), span, 0, span - 2),
+            helpers.knot_removal_alpha_i(x, 3, tuple(UQ), 0, span - 2),
+            helpers.knot_removal_alpha_j(x, 3, tuple(UQ), 0, span))
     for n in (2, 3, 1, 4, 2, 3):
-        out.append(('identity', n, linalg.matrix_identity(n)))
-    out.append(('binomial', [[linalg.binomial_coefficient(k, i) for i in range(k + 1)] for k in range(7)]))
+        rec('identity', n, linalg.matrix_identity(n))
+    rec('binomial', [[linalg.binomial_coefficient(k, i) for i in range(k + 1)] for k in range(7)])
     A = [[4.0, 1.0, 0.0], [1.0, 4.0, 1.0], [0.0, 1.0, 4.0]]
-    out.append(('lu_solve', linalg.lu_solve(A, [[1.0, 2.0], [0.0, 1.0], [3.0, -1.0]])))
-    out.append(('identity-again', [linalg.matrix_identity(n) for n in (3, 2, 3)]))
-for o in out:
-    print(repr(o))
+    rec('lu_solve', linalg.lu_solve(A, [[1.0, 2.0], [0.0, 1.0], [3.0, -1.0]]))
+    rec('identity-again', [linalg.matrix_identity(n) for n in (3, 2, 3)])
+# a history in which memoised objects are handed out, used by a pivoting routine and requested again (last on purpose)
+M = [[0.0, 2.0, 1.0], [3.0, 1.0, 0.0], [1.0, 0.0, 4.0]]
+rec('pivot-history', linalg.matrix_pivot(M), linalg.matrix_identity(2), linalg.matrix_pivot([[0.0, 1.0], [2.0, 0.0]]),
+    linalg.matrix_identity(4), linalg.matrix_identity(3), linalg.matrix_identity(2), linalg.lu_decomposition(M))
 '''
 
 
@@ -326,8 +343,11 @@ def cache_size_env(ctx, size):
     a, b = out0.splitlines(), out.splitlines()
     ctx.check_true('results.count', len(a) == len(b), '%d result lines, %d with the variable unset' % (len(b), len(a)))
     for i, (x, y) in enumerate(zip(a, b)):
+        at = next((j for j, (c, d) in enumerate(zip(x, y)) if c != d), min(len(x), len(y)))
+        lo = max(0, at - 60)
         ctx.check_true('results.identical[%s]' % x.split(',')[0].strip("('"), x == y,
-                       'line %d differs:\n  unset: %s\n  %s: %s' % (i, x[:300], size, y[:300]))
+                       'result %d (%s) differs at column %d:  unset: ...%s...   GEOMDL_CACHE_SIZE=%s: ...%s...'
+                       % (i, x[:40], at, x[lo:at + 60], size, y[lo:at + 60]))
 
 
 # ------------------------------------------------------------------------------------------------
@@ -365,7 +385,6 @@ def _affine_curve_shapes(tier):
 
 
 def _affine_curve_setup(ctx, p, mult, rational, ab):
-    from . import spec
     U, inner, n = shapes.make_kv(ctx, p, mult)
     a, b = _ab(ctx, ab, '')
     Up = [a * k + b for k in U]
@@ -389,7 +408,6 @@ def curve_affine_eval(ctx, p, mult, rational, ab):
        ensures : N.knotvector = U, F.knotvector = a*U + b, F.domain = (b, a + b);  with t = a*u + b:
                  F.evaluate_single(t) = N.evaluate_single(u);  F.evaluate_list([t, b, a + b]) = N.evaluate_list([u, 0, 1]);
                  F.derivatives(t, K)[k] * a**k = N.derivatives(u, K)[k] for K = 0..p+1 (chain rule); nothing raises"""
-    from . import spec
     U, inner, n, a, b, P, W, N, F = _affine_curve_setup(ctx, p, mult, rational, ab)
     u = shapes.param_in(ctx, 'u', U[0], U[-1])
     t = a * u + b
@@ -417,7 +435,8 @@ def _affine_insert_shapes(tier):
         out.append(dict(p=p, mult=mult, r=r, rational=False, ab='sym'))
     out.append(dict(p=2, mult=[1], r=1, rational=True, ab='sym'))
     out.append(dict(p=3, mult=[1], r=3, rational=False, ab=['10', '0']))
-    out.append(dict(p=2, mult=[1], r=2, rational=True, ab=['1/1000', '1']))
+    out.append(dict(p=2, mult=[1], r=2, rational=False, ab=['1/1000', '1']))
+    out.append(dict(p=2, mult=[], r=1, rational=True, ab=['3', '-1']))
     if tier == 'thorough':
         out += [dict(p=3, mult=[2], r=2, rational=False, ab='sym'), dict(p=3, mult=[1, 1], r=3, rational=False, ab='sym'),
                 dict(p=4, mult=[1], r=2, rational=False, ab=['10', '0']), dict(p=3, mult=[1], r=1, rational=True, ab='sym')]
@@ -434,7 +453,6 @@ def curve_affine_insert(ctx, p, mult, r, rational, ab):
        ensures : after N.insert_knot(x, num=r) and F.insert_knot(a*x + b, num=r) (accepted or rejected alike):
                  same number of control points, same control points / weights, F.knotvector = a * N.knotvector + b,
                  F.evaluate_single(a*u + b) = N.evaluate_single(u); nothing raises"""
-    from . import spec
     U, inner, n, a, b, P, W, N, F = _affine_curve_setup(ctx, p, mult, rational, ab)
     x = shapes.param_in(ctx, 'x', U[0], U[-1], open_lo=True, open_hi=True)
     for k in [U[0]] + inner + [U[-1]]:
@@ -477,7 +495,6 @@ def curve_affine_sampling(ctx, p, mult, rational, ab, n, via):
                  would make it symbolic); via = 'sample_size': obj.sample_size = n,  via = 'delta': obj.delta = 1/n
        ensures : setting the density does not raise on the un-normalised object; both objects report sample_size n and have
                  n evaluated points; point i of F = point i of N (the grid is the affine image: t_i = a*u_i + b)"""
-    from . import spec
     U, inner, cnt, a, b, P, W, N, F = _affine_curve_setup(ctx, p, mult, rational, ab)
     if via == 'sample_size':
         N.sample_size = n
@@ -488,7 +505,7 @@ def curve_affine_sampling(ctx, p, mult, rational, ab, n, via):
     ctx.check_true('normalised.sample_size', N.sample_size == n, 'normalised object reports sample_size %r' % (N.sample_size,))
     got_n = _call(ctx, 'sample_size.get', getattr, F, 'sample_size')
     ctx.check_true('sample_size.getter', got_n == n, 'sample size %d requested on the knot range [%s, %s]: the object reports %r'
-                   % (n, b, a + b, got_n))
+                   % (n, ctx.as_fraction(b), ctx.as_fraction(a + b), got_n))
     if rational:
         for i in range(n):
             ctx.assume_pos(spec.curve_point(p, U, [[w] for w in W], ctx.lit(Fraction(i, n - 1)))[0], 'L.weight_function_positive')
@@ -497,3 +514,494 @@ def curve_affine_sampling(ctx, p, mult, rational, ab, n, via):
     ctx.check_true('normalised.evalpts.count', len(want) == n)
     ctx.check_true('evalpts.count', len(got) == len(want), '%d evaluated points, normalised object %d' % (len(got), len(want)))
     ctx.check_eq_grid('evalpts', got, want)
+
+
+def _affine_surface_shapes(tier):
+    out = [dict(pu=1, pv=1, mu=[], mv=[1], rational=False, ab='sym', query='derivatives'),
+           dict(pu=2, pv=1, mu=[1], mv=[], rational=False, ab='sym', query='derivatives'),
+           dict(pu=2, pv=2, mu=[1], mv=[1], rational=False, ab='sym', query='derivatives'),
+           dict(pu=1, pv=1, mu=[], mv=[], rational=True, ab='sym', query='derivatives'),
+           dict(pu=2, pv=1, mu=[1], mv=[], rational=False, ab=[['10', '0'], ['1/4', '3']], query='derivatives'),
+           dict(pu=2, pv=1, mu=[1], mv=[], rational=False, ab='sym', query='insert_u'),
+           dict(pu=1, pv=2, mu=[], mv=[1], rational=False, ab='sym', query='insert_v'),
+           dict(pu=2, pv=2, mu=[1], mv=[], rational=False, ab=[['10', '0'], ['1/4', '3']], query='insert_uv'),
+           dict(pu=1, pv=1, mu=[], mv=[], rational=True, ab='sym', query='insert_u')]
+    if tier == 'thorough':
+        out += [dict(pu=3, pv=2, mu=[1], mv=[1], rational=False, ab='sym', query='derivatives'),
+                dict(pu=2, pv=2, mu=[], mv=[], rational=True, ab='sym', query='derivatives'),
+                dict(pu=2, pv=3, mu=[1], mv=[1], rational=False, ab='sym', query='insert_uv'),
+                dict(pu=2, pv=1, mu=[1], mv=[], rational=True, ab='sym', query='insert_v')]
+    return out
+
+
+def _affine_surface_setup(ctx, pu, pv, mu, mv, rational, ab):
+    U, iu, su = shapes.make_kv(ctx, pu, mu, prefix='c')
+    V, iv, sv = shapes.make_kv(ctx, pv, mv, prefix='d')
+    au, bu = _ab(ctx, ab if ab == 'sym' else ab[0], 'u')
+    av, bv = _ab(ctx, ab if ab == 'sym' else ab[1], 'v')
+    Up = [au * k + bu for k in U]
+    Vp = [av * k + bv for k in V]
+    P = shapes.net(ctx, 'P', su * sv, 3)
+    W = shapes.weights(ctx, 'w', su * sv) if rational else None
+    N = _surface(ctx, pu, pv, Up, Vp, P, su, sv, W, normalize_kv=True)
+    F = _call(ctx, 'unnormalised.build', _surface, ctx, pu, pv, Up, Vp, P, su, sv, W, None, False, False)
+    ctx.check_eq_vec('normalised.knotvector_u=unit_range', N.knotvector_u, U)
+    ctx.check_eq_vec('normalised.knotvector_v=unit_range', N.knotvector_v, V)
+    ctx.check_eq_vec('unnormalised.knotvector_u=as_given', F.knotvector_u, Up)
+    ctx.check_eq_vec('unnormalised.knotvector_v=as_given', F.knotvector_v, Vp)
+    return U, V, iu, iv, su, sv, (au, bu), (av, bv), P, W, N, F
+
+
+@scenario('C17', fns=['abstract.Surface.knotvector_u', 'abstract.Surface.knotvector_v', 'knotvector.normalize',
+                      'BSpline.Surface.evaluate_single', 'BSpline.Surface.evaluate_list', 'BSpline.Surface.derivatives',
+                      'NURBS.Surface.derivatives', 'BSpline.Surface.insert_knot', 'operations.insert_knot',
+                      'helpers.find_multiplicity', 'utilities.check_params', 'abstract.SplineGeometry.domain'],
+          quick=lambda: _affine_surface_shapes('quick'), thorough=lambda: _affine_surface_shapes('thorough'))
+def surface_affine(ctx, pu, pv, mu, mv, rational, ab, query):
+    """config  : N = Surface(normalize_kv=True), F = Surface(normalize_kv=False), both given a_u*U + b_u and a_v*V + b_v
+       ensures : with (s, t) = (a_u*u + b_u, a_v*v + b_v):  F.evaluate_single([s, t]) = N.evaluate_single([u, v]);
+                 query 'derivatives': F.derivatives(s, t, K)[k][l] * a_u**k * a_v**l = N.derivatives(u, v, K)[k][l], k + l <= K,
+                                      K = 0..min(pu, pv) + 1 <= pu + 1 (chain rule);
+                 query 'insert_*'   : insert_knot (one knot, once, in the named directions) on both: same sizes, same control
+                                      points, knots of F = affine image of the knots of N, same evaluated point
+       requires: as curve_affine_eval / curve_affine_insert per direction"""
+    U, V, iu, iv, su, sv, (au, bu), (av, bv), P, W, N, F = _affine_surface_setup(ctx, pu, pv, mu, mv, rational, ab)
+    u = shapes.param_in(ctx, 'u', U[0], U[-1])
+    v = shapes.param_in(ctx, 'v', V[0], V[-1])
+    s, t = au * u + bu, av * v + bv
+    if rational:
+        ctx.assume_pos(spec.surface_point(pu, pv, U, V, [[w] for w in W], su, sv, u, v)[0], 'L.weight_function_positive')
+    dom = _call(ctx, 'domain', getattr, F, 'domain')
+    ctx.check_eq_grid('domain', [list(d) for d in dom], [[bu, au + bu], [bv, av + bv]])
+    ctx.check_eq_vec('evaluate_single', _call(ctx, 'evaluate_single', F.evaluate_single, [s, t]), N.evaluate_single([u, v]))
+    want = N.evaluate_list([[u, v], [U[0], V[-1]]])
+    got = _call(ctx, 'evaluate_list', F.evaluate_list, [[s, t], [bu, av + bv]])
+    ctx.check_true('evaluate_list.len', len(got) == len(want) == 2)
+    ctx.check_eq_grid('evaluate_list', got, want)
+    if query == 'derivatives':
+        for order in range(0, min(pu, pv) + 2):
+            want = N.derivatives(u, v, order)
+            got = _call(ctx, 'derivatives(order=%d)' % order, F.derivatives, s, t, order)
+            ctx.check_true('derivatives(order=%d).shape' % order, len(got) == order + 1 and all(len(r) == order + 1 for r in got))
+            for k in range(order + 1):
+                for l in range(order + 1 - k):
+                    sc = _pow(au, k) * _pow(av, l)
+                    ctx.check_eq_vec('derivatives(order=%d)[%d][%d]*a_u^%d*a_v^%d' % (order, k, l, k, l),
+                                     [c * sc for c in got[k][l]], want[k][l])
+        return
+    x = shapes.param_in(ctx, 'x', ctx.lit(0), ctx.lit(1), open_lo=True, open_hi=True)
+    kwn, kwf = {}, {}
+    if 'u' in query[7:]:
+        for k in [U[0]] + iu + [U[-1]]:
+            ctx.assume(ctx.sep(x, k, MULT_TOL), ctx.sep(au * x + bu, au * k + bu, MULT_TOL))
+        kwn['u'], kwf['u'] = x, au * x + bu
+    if 'v' in query[7:]:
+        for k in [V[0]] + iv + [V[-1]]:
+            ctx.assume(ctx.sep(x, k, MULT_TOL), ctx.sep(av * x + bv, av * k + bv, MULT_TOL))
+        kwn['v'], kwf['v'] = x, av * x + bv
+    N.insert_knot(**kwn)
+    _call(ctx, 'insert_knot', F.insert_knot, **kwf)
+    ctx.check_true('insert.size', (F.ctrlpts_size_u, F.ctrlpts_size_v) == (N.ctrlpts_size_u, N.ctrlpts_size_v)
+                   and len(F.ctrlpts) == len(N.ctrlpts), 'sizes %r, normalised object %r'
+                   % ((F.ctrlpts_size_u, F.ctrlpts_size_v), (N.ctrlpts_size_u, N.ctrlpts_size_v)))
+    ctx.check_eq_vec('insert.knotvector_u=a*U+b', F.knotvector_u, [au * k + bu for k in N.knotvector_u])
+    ctx.check_eq_vec('insert.knotvector_v=a*V+b', F.knotvector_v, [av * k + bv for k in N.knotvector_v])
+    ctx.check_eq_grid('insert.ctrlpts', F.ctrlpts, N.ctrlpts)
+    if rational:
+        ctx.check_eq_vec('insert.weights', F.weights, N.weights)
+    ctx.check_eq_vec('insert.evaluate_single', _call(ctx, 'insert.evaluate_single', F.evaluate_single, [s, t]),
+                     N.evaluate_single([u, v]))
+
+
+def _grid_sampling_shapes(tier):
+    out = [dict(kind='surface', deg=[2, 1], mult=[[1], []], rational=False, ab=[['10', '0'], ['1', '0']], n=[11, 2], via='sample_size'),
+           dict(kind='surface', deg=[1, 2], mult=[[], [1]], rational=False, ab=[['1', '0'], ['1/2', '1']], n=[2, 3], via='sample_size'),
+           dict(kind='surface', deg=[1, 1], mult=[[1], []], rational=True, ab=[['1', '2'], ['1', '-3']], n=[3, 2], via='sample_size'),
+           dict(kind='surface', deg=[2, 1], mult=[[1], []], rational=False, ab=[['10', '0'], ['1/2', '1']], n=[3, 2], via='delta'),
+           dict(kind='surface', deg=[1, 2], mult=[[1], []], rational=False, ab=[['2', '0'], ['1', '1']], n=[3, 3], via='sample_size_all'),
+           dict(kind='volume', deg=[1, 1, 1], mult=[[], [], []], rational=False, ab=[['1', '0'], ['1', '0'], ['3', '0']],
+                n=[2, 2, 4], via='sample_size'),
+           dict(kind='volume', deg=[1, 1, 1], mult=[[], [], []], rational=False, ab=[['1', '1'], ['1/2', '0'], ['1', '0']],
+                n=[2, 2, 2], via='sample_size_all'),
+           dict(kind='volume', deg=[1, 1, 1], mult=[[1], [], []], rational=False, ab=[['2', '1'], ['1/2', '0'], ['3', '-1']],
+                n=[3, 2, 2], via='delta')]
+    if tier == 'thorough':
+        out += [dict(kind='surface', deg=[2, 2], mult=[[1], [1]], rational=False, ab=[['3', '0'], ['1', '0']], n=[n, 3],
+                     via='sample_size') for n in (2, 3, 4, 7)]
+        out += [dict(kind='volume', deg=[1, 2, 1], mult=[[], [1], []], rational=True, ab=[['1', '0'], ['7/2', '1']
+                     , ['1', '0']], n=[2, 4, 2], via='sample_size')]
+    return out
+
+
+@scenario('C17', fns=['abstract.Surface.sample_size_u', 'abstract.Surface.sample_size_v', 'abstract.Surface.delta_u',
+                      'abstract.Surface.delta_v', 'abstract.Volume.sample_size_u', 'abstract.Volume.sample_size_v',
+                      'abstract.Volume.sample_size_w', 'abstract.Volume.delta_u', 'abstract.Volume.delta_v', 'abstract.Volume.delta_w',
+                      'BSpline.Surface.evaluate', 'BSpline.Volume.evaluate', 'evaluators.SurfaceEvaluator.evaluate',
+                      'evaluators.VolumeEvaluator.evaluate', 'linalg.linspace', 'BSpline.Volume.evaluate_single'],
+          quick=lambda: _grid_sampling_shapes('quick'), thorough=lambda: _grid_sampling_shapes('thorough'))
+def grid_affine_sampling(ctx, kind, deg, mult, rational, ab, n, via):
+    """surfaces and volumes, CONCRETE affine maps per direction, symbolic interior knots / control points (/ weights)
+       ensures : setting sample_size_<d> = n_d (or delta_<d> = 1/n_d, or sample_size = n for all directions) does not raise on the un-normalised object, it reports
+                 the same sample sizes, has prod(n_d) evaluated points, point i equals point i of the normalised object"""
+    nd = len(deg)
+    kvs, sizes, maps = [], [], []
+    for d in range(nd):
+        U, _inner, cnt = shapes.make_kv(ctx, deg[d], mult[d], prefix='cde'[d])
+        kvs.append(U)
+        sizes.append(cnt)
+        maps.append(_ab(ctx, ab[d], 'uvw'[d]))
+    total = 1
+    for c in sizes:
+        total *= c
+    P = shapes.net(ctx, 'P', total, 3)
+    W = shapes.weights(ctx, 'w', total) if rational else None
+    kvp = [[a * k + b for k in U] for U, (a, b) in zip(kvs, maps)]
+    if kind == 'surface':
+        N = _surface(ctx, deg[0], deg[1], kvp[0], kvp[1], P, sizes[0], sizes[1], W, normalize_kv=True)
+        F = _call(ctx, 'unnormalised.build', _surface, ctx, deg[0], deg[1], kvp[0], kvp[1], P, sizes[0], sizes[1], W, None,
+                  False, False)
+    else:
+        N = shapes.build_volume(ctx, deg[0], deg[1], deg[2], kvp[0], kvp[1], kvp[2], P, sizes[0], sizes[1], sizes[2], W, True)
+        F = _call(ctx, 'unnormalised.build', shapes.build_volume, ctx, deg[0], deg[1], deg[2], kvp[0], kvp[1], kvp[2], P,
+                  sizes[0], sizes[1], sizes[2], W, False)
+    names = 'uvw'[:nd]
+    if via == 'sample_size_all':          # one value for every direction through obj.sample_size
+        setattr(N, 'sample_size', n[0])
+        _call(ctx, 'sample_size.set', setattr, F, 'sample_size', n[0])
+    for d, nm in enumerate(names):
+        if via == 'sample_size_all':
+            continue
+        if via == 'sample_size':
+            setattr(N, 'sample_size_' + nm, n[d])
+            _call(ctx, 'sample_size_%s.set' % nm, setattr, F, 'sample_size_' + nm, n[d])
+        else:
+            setattr(N, 'delta_' + nm, ctx.lit(Fraction(1, n[d])))
+            _call(ctx, 'delta_%s.set' % nm, setattr, F, 'delta_' + nm, ctx.lit(Fraction(1, n[d])))
+    for d, nm in enumerate(names):
+        ctx.check_true('normalised.sample_size_' + nm, getattr(N, 'sample_size_' + nm) == n[d])
+        got_n = _call(ctx, 'sample_size_%s.get' % nm, getattr, F, 'sample_size_' + nm)
+        a, b = maps[d]
+        ctx.check_true('sample_size_%s.getter' % nm, got_n == n[d], 'sample size %d requested on the knot range [%s, %s]: the '
+                       'object reports %r' % (n[d], ctx.as_fraction(b), ctx.as_fraction(a + b), got_n))
+    if rational:
+        wnet = [[w] for w in W]
+        grid = [[ctx.lit(Fraction(i, n[d] - 1)) for i in range(n[d])] for d in range(nd)]
+        if kind == 'surface':
+            for g0 in grid[0]:
+                for g1 in grid[1]:
+                    ctx.assume_pos(spec.surface_point(deg[0], deg[1], kvs[0], kvs[1], wnet, sizes[0], sizes[1], g0, g1)[0],
+                                   'L.weight_function_positive')
+        else:
+            for g0 in grid[0]:
+                for g1 in grid[1]:
+                    for g2 in grid[2]:
+                        ctx.assume_pos(spec.volume_point(deg[0], deg[1], deg[2], kvs[0], kvs[1], kvs[2], wnet, sizes[0],
+                                                         sizes[1], sizes[2], g0, g1, g2)[0], 'L.weight_function_positive')
+    want = N.evalpts
+    got = _call(ctx, 'evalpts', getattr, F, 'evalpts')
+    cnt = 1
+    for c in n:
+        cnt *= c
+    ctx.check_true('normalised.evalpts.count', len(want) == cnt)
+    ctx.check_true('evalpts.count', len(got) == len(want), '%d evaluated points, normalised object %d' % (len(got), len(want)))
+    ctx.check_eq_grid('evalpts', got, want)
+    if kind == 'volume':
+        prm = [shapes.param_in(ctx, nm, ctx.lit(0), ctx.lit(1)) for nm in names]
+        if rational:
+            ctx.assume_pos(spec.volume_point(deg[0], deg[1], deg[2], kvs[0], kvs[1], kvs[2], wnet, sizes[0], sizes[1], sizes[2],
+                                             prm[0], prm[1], prm[2])[0], 'L.weight_function_positive')
+        ctx.check_eq_vec('evaluate_single', _call(ctx, 'evaluate_single', F.evaluate_single,
+                                                  [a * q + b for q, (a, b) in zip(prm, maps)]), N.evaluate_single(prm))
+
+
+# ------------------------------------------------------------------------------------------------
+# (4) num_procs
+# ------------------------------------------------------------------------------------------------
+class _ContractPool(object):
+    """assumption A4: multiprocessing.Pool(processes=N).map(f, xs) = [f(x') for x' in xs] on pickled copies of f and of
+    every x, results pickled back, ORDER PRESERVED, for every N and every schedule.  Schedules are not explored."""
+
+    def __init__(self, *args, **kwargs):
+        self.processes = kwargs.get('processes', args[0] if args else None)
+        if self.processes is not None and self.processes < 1:
+            raise ValueError('Number of processes must be at least 1')
+
+    def map(self, fn, iterable, chunksize=None):
+        import pickle
+        fn = pickle.loads(pickle.dumps(fn))
+        return [pickle.loads(pickle.dumps(fn(pickle.loads(pickle.dumps(x))))) for x in list(iterable)]
+
+    def terminate(self):
+        pass
+
+
+def _pools(ctx):
+    """float mode: the real process pools (wrapped only to count their use).  sym mode: the pool replaced by its contract in
+    the loaded modules (see the module docstring).  Returns the use counter {'pools': n, 'processes': [..]}"""
+    import contextlib
+    utl = ctx.geomdl('_utilities')
+    real = getattr(utl, '_c17_real_pool_context', None)
+    if real is None:
+        real = utl._c17_real_pool_context = utl.pool_context
+    stats = {'pools': 0, 'processes': []}
+
+    @contextlib.contextmanager
+    def pool_context(*args, **kwargs):
+        stats['pools'] += 1
+        stats['processes'].append(kwargs.get('processes', args[0] if args else None))
+        if ctx.mode == 'sym':
+            yield _ContractPool(*args, **kwargs)
+        else:
+            with real(*args, **kwargs) as pool:
+                yield pool
+
+    utl.pool_context = pool_context
+    vx = ctx.geomdl('_voxelize')
+    if hasattr(vx, 'pool_context'):
+        vx.pool_context = pool_context
+    return stats
+
+
+# concrete shapes: (degree_u, degree_v, size_u, size_v, rational, interior knots u, interior knots v)
+_SURFS = [(2, 1, 4, 2, False, ['2/5'], []), (1, 2, 2, 4, True, [], ['1/3']), (3, 2, 5, 3, False, ['1/2'], []),
+          (1, 1, 3, 3, False, ['1/4'], ['3/4']), (2, 2, 3, 3, True, [], [])]
+
+
+def _concrete_surface(ctx, k, spec_):
+    pu, pv, su, sv, rational, iu, iv = spec_
+    U = [ctx.lit(0)] * (pu + 1) + [ctx.lit(Fraction(x)) for x in iu] + [ctx.lit(1)] * (pu + 1)
+    V = [ctx.lit(0)] * (pv + 1) + [ctx.lit(Fraction(x)) for x in iv] + [ctx.lit(1)] * (pv + 1)
+    P = [[ctx.lit(Fraction(3 * k + 2 * i, 1)), ctx.lit(Fraction(3 * j - k, 2)), ctx.lit(Fraction((i - 1) * (j + k) + i * i, 3))]
+         for i in range(su) for j in range(sv)]
+    W = [ctx.lit(Fraction(2 + (i * 7 + k) % 3, 2)) for i in range(su * sv)] if rational else None
+    return _surface(ctx, pu, pv, U, V, P, su, sv, W)
+
+
+def _container(ctx, count):
+    c = ctx.geomdl('multi').SurfaceContainer()
+    for k in range(count):
+        c.add(_concrete_surface(ctx, k, _SURFS[k % len(_SURFS)]))
+    return c
+
+
+def _mesh(vertices, faces):
+    return ([(v.id, list(v.uv), list(v.data)) for v in vertices],
+            [(f.id, list(f.vertex_ids), [v.id for v in f.vertices]) for f in faces])
+
+
+def _check_mesh(ctx, tag, got, want):
+    gv, gf = got
+    wv, wf = want
+    ctx.check_true(tag + '.vertices.count', len(gv) == len(wv), '%d vertices, %d with one process' % (len(gv), len(wv)))
+    ctx.check_true(tag + '.faces.count', len(gf) == len(wf), '%d faces, %d with one process' % (len(gf), len(wf)))
+    ctx.check_true(tag + '.vertices.ids', [v[0] for v in gv] == [v[0] for v in wv],
+                   'vertex ids %r, with one process %r' % ([v[0] for v in gv][:12], [v[0] for v in wv][:12]))
+    ctx.check_eq_grid(tag + '.vertices.uv', [v[1] for v in gv], [v[1] for v in wv])
+    ctx.check_eq_grid(tag + '.vertices.data', [v[2] for v in gv], [v[2] for v in wv])
+    ctx.check_true(tag + '.faces.ids', [f[0] for f in gf] == [f[0] for f in wf])
+    ctx.check_true(tag + '.faces.vertex_ids', [f[1:] for f in gf] == [f[1:] for f in wf],
+                   'faces %r, with one process %r' % ([f[1] for f in gf][:6], [f[1] for f in wf][:6]))
+
+
+def _tess_instances(tier):
+    out = []
+    for count in (1, 3):
+        for np_ in (2, 4):
+            out.append(dict(count=count, num_procs=np_, delta=['1/3', '1/2'], update_delta=True))
+    out.append(dict(count=5, num_procs=2, delta=['1/4', '1/3'], update_delta=True))
+    out.append(dict(count=2, num_procs=4, delta=['1/3', '1/2'], update_delta=False))
+    if tier == 'thorough':
+        out += [dict(count=c, num_procs=8, delta=['1/3', '1/2'], update_delta=True) for c in (2, 5, 9)]
+        out += [dict(count=4, num_procs=3, delta=['1/5', '1/4'], update_delta=True)]
+    return out
+
+
+@scenario('C17', fns=['multi.SurfaceContainer.tessellate', 'multi.process_tessellate', 'multi.SurfaceContainer.vertices',
+                      'multi.SurfaceContainer.faces', '_utilities.pool_context', 'abstract.Surface.tessellate',
+                      'tessellate.TrimTessellate.tessellate', 'multi.AbstractContainer.delta', 'multi.AbstractContainer.evalpts'],
+          quick=lambda: _tess_instances('quick'), thorough=lambda: _tess_instances('thorough'))
+def tessellate_num_procs(ctx, count, num_procs, delta, update_delta):
+    """requires: a container of `count` CONCRETE surfaces (different degrees / sizes / rationality), container delta set
+                 (update_delta=False: every element keeps its own delta, set per element before)
+       config  : tessellate(num_procs=N) vs tessellate(num_procs=1) on an identically built container
+       ensures : same vertices (id, uv, coordinates) and faces (id, vertex ids) of the container, the same per element, same
+                 evaluated points per element, the container still holds `count` elements in the same order; nothing raises
+       pool    : native replay = the real multiprocessing.Pool; symbolic run = the order-preserving map contract (A4).
+                 Schedules are not explored."""
+    stats = _pools(ctx)
+    d = [ctx.lit(Fraction(x)) for x in delta]
+
+    def run(n):
+        c = _container(ctx, count)
+        if update_delta:
+            c.delta = d
+        else:
+            for k, e in enumerate(c):
+                e.delta = [ctx.lit(Fraction(1, 2 + k % 2)), ctx.lit(Fraction(1, 3 - k % 2))]
+        kw = {} if n is None else {'num_procs': n}
+        c.tessellate(delta=update_delta, **kw)
+        return c
+
+    ref = run(None)
+    one = run(1)
+    ctx.check_true('num_procs=1.no_pool', stats['pools'] == 0)
+    cfg = _call(ctx, 'tessellate(num_procs=%d)' % num_procs, run, num_procs)
+    ctx.check_true('pool.used_with_num_procs', stats['pools'] == 1 and stats['processes'] == [num_procs],
+                   'pools opened: %r' % (stats,))
+    want = _mesh(ref.vertices, ref.faces)
+    ctx.check_true('reference.nonempty', len(want[0]) >= 4 * count and len(want[1]) >= 2 * count)
+    _check_mesh(ctx, 'num_procs=1', _mesh(one.vertices, one.faces), want)
+    _check_mesh(ctx, 'container', _mesh(_call(ctx, 'vertices', getattr, cfg, 'vertices'), cfg.faces), want)
+    ctx.check_true('elements.count', len(cfg) == len(ref) == count, '%d elements after tessellate, %d before' % (len(cfg), count))
+    for k in range(count):
+        a, b = cfg[k], ref[k]
+        ctx.check_true('element%d.same_shape' % k, (a.degree_u, a.degree_v, a.ctrlpts_size_u, a.ctrlpts_size_v, a.rational) ==
+                       (b.degree_u, b.degree_v, b.ctrlpts_size_u, b.ctrlpts_size_v, b.rational),
+                       'element %d of the container is a different surface' % k)
+        ctx.check_eq_grid('element%d.ctrlpts' % k, a.ctrlpts, b.ctrlpts)
+        ctx.check_true('element%d.sample_size' % k, (a.sample_size_u, a.sample_size_v) == (b.sample_size_u, b.sample_size_v))
+        ctx.check_true('element%d.evalpts.count' % k, len(a.evalpts) == len(b.evalpts))
+        ctx.check_eq_grid('element%d.evalpts' % k, a.evalpts, b.evalpts)
+        _check_mesh(ctx, 'element%d' % k, _mesh(a.vertices, a.faces), _mesh(b.vertices, b.faces))
+
+
+def _vox_instances(tier):
+    out = [dict(kind='surface', count=1, num_procs=2, grid=[3, 3, 2], use_cubes=False),
+           dict(kind='surface', count=2, num_procs=4, grid=[2, 3, 3], use_cubes=False),
+           dict(kind='surface', count=1, num_procs=4, grid=[3, 2, 3], use_cubes=True),
+           dict(kind='volume', count=1, num_procs=2, grid=[3, 3, 3], use_cubes=False)]
+    if tier == 'thorough':
+        out += [dict(kind='surface', count=3, num_procs=8, grid=[4, 4, 4], use_cubes=False),
+                dict(kind='volume', count=2, num_procs=4, grid=[4, 3, 5], use_cubes=True)]
+    return out
+
+
+def _concrete_volume(ctx, k):
+    U = [ctx.lit(0)] * 2 + [ctx.lit(1)] * 2
+    Wk = [ctx.lit(0)] * 3 + [ctx.lit(1)] * 3
+    P = [[ctx.lit(Fraction(2 * i + k, 1)), ctx.lit(Fraction(3 * j, 2)), ctx.lit(Fraction(l * (i + 1) + j, 2))]
+         for l in range(3) for i in range(2) for j in range(2)]
+    v = shapes.build_volume(ctx, 1, 1, 2, U, U, Wk, P, 2, 2, 3)
+    v.delta = [ctx.lit(Fraction(1, 3)), ctx.lit(Fraction(1, 2)), ctx.lit(Fraction(1, 3))]
+    return v
+
+
+@scenario('C17', fns=['voxelize.voxelize', '_voxelize.find_inouts_mp', '_voxelize.find_inouts_st',
+                      '_voxelize.is_point_inside_voxel', '_voxelize.generate_voxel_grid', '_utilities.pool_context',
+                      'linalg.frange', 'linalg.vector_dot'],
+          quick=lambda: _vox_instances('quick'), thorough=lambda: _vox_instances('thorough'))
+def voxelize_num_procs(ctx, kind, count, num_procs, grid, use_cubes):
+    """requires: a container of CONCRETE surfaces / volumes with a coarse evaluation grid, grid_size >= 2 per axis
+       config  : voxelize(obj, grid_size=..., num_procs=N) vs the default (num_procs=1, single-process loop)
+       ensures : the same voxel grid (every corner) and the same filled flags, one flag per voxel; nothing raises
+       pool    : as tessellate_num_procs.  Schedules are not explored."""
+    stats = _pools(ctx)
+    vz = ctx.geomdl('voxelize')
+    multi = ctx.geomdl('multi')
+
+    def build():
+        if kind == 'surface':
+            c = _container(ctx, count)
+            c.delta = [ctx.lit(Fraction(1, 3)), ctx.lit(Fraction(1, 4))]
+            for e in c:
+                e.delta = c.delta
+            return c
+        c = multi.VolumeContainer()
+        for k in range(count):
+            c.add(_concrete_volume(ctx, k))
+        return c
+
+    g0, f0 = vz.voxelize(build(), grid_size=tuple(grid), use_cubes=use_cubes)
+    g1, f1 = vz.voxelize(build(), grid_size=tuple(grid), use_cubes=use_cubes, num_procs=1)
+    gn, fn = _call(ctx, 'voxelize(num_procs=%d)' % num_procs, vz.voxelize, build(), grid_size=tuple(grid), use_cubes=use_cubes,
+                   num_procs=num_procs)
+    ctx.check_true('pool.used_with_num_procs', stats['pools'] == count and stats['processes'] == [num_procs] * count,
+                   'pools opened: %r' % (stats,))
+    ctx.check_true('reference.nonempty', len(g0) >= 8 and len(f0) == len(g0) and 0 < sum(f0) <= len(f0),
+                   '%d voxels, %d flags, %d filled' % (len(g0), len(f0), sum(f0)))
+    for tag, g, f in (('num_procs=1', g1, f1), ('num_procs=%d' % num_procs, gn, fn)):
+        ctx.check_true(tag + '.grid.count', len(g) == len(g0), '%d voxels, default %d' % (len(g), len(g0)))
+        for i in range(len(g0)):
+            ctx.check_eq_grid('%s.grid[%d]' % (tag, i), g[i], g0[i])
+        ctx.check_true(tag + '.filled.count', len(f) == len(g), '%d flags for %d voxels' % (len(f), len(g)))
+        ctx.check_true(tag + '.filled', list(f) == list(f0), 'filled flags %r, default %r' % (list(f), list(f0)))
+
+
+_POOL_SCRIPT = r'''
+import json, sys
+sys.path.insert(0, sys.argv[1])
+sys.path.insert(0, sys.argv[2])
+from harness import api, c17
+ctx = api.FloatCtx({})
+try:
+    getattr(c17, sys.argv[3])(ctx, **json.loads(sys.argv[4]))
+except api.CheckFailed as e:
+    print('FAILED %s: %s' % (e.label, e.detail))
+    sys.exit(1)
+print('OK %d checks' % len(ctx.records))
+'''
+
+
+def _real_pool_instances(tier):
+    out = []
+    for np_ in (2, 4) + ((8,) if tier == 'thorough' else ()):
+        out.append(dict(target='tessellate_num_procs', num_procs=np_,
+                        params=dict(count=5, num_procs=np_, delta=['1/4', '1/3'], update_delta=True)))
+        out.append(dict(target='voxelize_num_procs', num_procs=np_,
+                        params=dict(kind='surface', count=2, num_procs=np_, grid=[3, 3, 3], use_cubes=False)))
+    out.append(dict(target='voxelize_num_procs', num_procs=2,
+                    params=dict(kind='volume', count=2, num_procs=2, grid=[3, 4, 3], use_cubes=True)))
+    return out
+
+
+@scenario('C17', fns=['multi.SurfaceContainer.tessellate', 'voxelize.voxelize', '_voxelize.find_inouts_mp',
+                      '_utilities.pool_context'],
+          quick=lambda: _real_pool_instances('quick'), thorough=lambda: _real_pool_instances('thorough'))
+def real_pools(ctx, target, num_procs, params):
+    """SANITY RUN, not a proof: the scenario `target` is executed once with native floats and the REAL multiprocessing.Pool
+    in a native interpreter ($VERIF_NATIVE_PY or /venv/bin/python; the running interpreter in the native replay) against the
+    repository under test.  Shows that the objects and the partial functions pickle and that Pool.map kept the order on this
+    run; other schedules are covered only by the Pool.map contract (A4)."""
+    import json
+    py = sys.executable if ctx.mode != 'sym' else os.environ.get('VERIF_NATIVE_PY', '/venv/bin/python')
+    root = os.path.dirname(os.path.dirname(os.path.abspath(__file__)))
+    env = dict(os.environ)
+    env['VERIF_REPO'] = REPO
+    env.pop('PYTHONPATH', None)
+    r = subprocess.run([py, '-c', _POOL_SCRIPT, REPO, root, target, json.dumps(params)], capture_output=True, text=True,
+                       timeout=300, env=env, cwd=root)
+    tail = (r.stdout + r.stderr).strip().splitlines()[-3:]
+    ctx.check_true('native_run.num_procs=%d' % num_procs, r.returncode == 0 and r.stdout.strip().startswith('OK'),
+                   '%s with real pools: exit %d: %s' % (target, r.returncode, ' | '.join(tail)))
+
+
+def _affine_tess_shapes(tier):
+    out = [dict(pu=2, pv=1, mu=[1], mv=[], ab=[['1', '0'], ['1', '0']], n=[3, 2]),
+           dict(pu=2, pv=1, mu=[1], mv=[], ab=[['2', '3'], ['1', '0']], n=[3, 2]),
+           dict(pu=1, pv=2, mu=[], mv=[], ab=[['1', '0'], ['1/2', '1/4']], n=[2, 3])]
+    if tier == 'thorough':
+        out += [dict(pu=2, pv=2, mu=[1], mv=[1], ab=[['10', '-5'], ['1/2', '1']], n=[4, 3])]
+    return out
+
+
+@scenario('C17', fns=['abstract.Surface.tessellate', 'tessellate.TrimTessellate.tessellate', 'abstract.Surface.vertices',
+                      'abstract.Surface.faces', 'BSpline.Surface.evaluate_single', 'utilities.check_params'],
+          quick=lambda: _affine_tess_shapes('quick'), thorough=lambda: _affine_tess_shapes('thorough'))
+def surface_affine_tessellate(ctx, pu, pv, mu, mv, ab, n):
+    """config  : N = Surface(normalize_kv=True), F = Surface(normalize_kv=False), both given a_u*U + b_u, a_v*V + b_v (CONCRETE
+                 maps, symbolic interior knots and control points), both with delta = (1/n_u, 1/n_v)
+       ensures : tessellate() does not raise on F; same number of vertices and faces, same vertex ids and face vertex ids,
+                 every vertex has the same coordinates (the surface point of the affinely mapped parameter)"""
+    U, V, iu, iv, su, sv, (au, bu), (av, bv), P, W, N, F = _affine_surface_setup(ctx, pu, pv, mu, mv, False, ab)
+    for obj in (N, F):
+        obj.delta = [ctx.lit(Fraction(1, n[0])), ctx.lit(Fraction(1, n[1]))]
+    N.tessellate()
+    _call(ctx, 'tessellate', F.tessellate)
+    want = _mesh(N.vertices, N.faces)
+    got = _mesh(_call(ctx, 'vertices', getattr, F, 'vertices'), F.faces)
+    ctx.check_true('normalised.vertices.count', len(want[0]) == n[0] * n[1])
+    ctx.check_true('vertices.count', len(got[0]) == len(want[0]), '%d vertices, normalised object %d' % (len(got[0]), len(want[0])))
+    ctx.check_true('faces.count', len(got[1]) == len(want[1]), '%d faces, normalised object %d' % (len(got[1]), len(want[1])))
+    ctx.check_true('vertices.ids', [v[0] for v in got[0]] == [v[0] for v in want[0]])
+    ctx.check_true('faces.vertex_ids', [f[1:] for f in got[1]] == [f[1:] for f in want[1]])
+    ctx.check_eq_grid('vertices.data', [v[2] for v in got[0]], [v[2] for v in want[0]])
